@@ -100,6 +100,27 @@ func build(c Case, ids []string, s setmodel.Set) ldiff.Diff {
 	}
 }
 
+// Tiny indexes (the enumeration) are built once per (parameters, universe, contents, build
+// mode) and shared between cases: a diff only reads both indexes, and the key is the full
+// description of how the index was made, so run stays a function of the case.
+var buildCache = map[string]ldiff.Diff{}
+
+func cachedBuild(c Case, ids []string, side []int, s setmodel.Set) ldiff.Diff {
+	if len(c.Ids) > 4 {
+		return build(c, ids, s)
+	}
+	key := fmt.Sprint(c.DF, c.TH, c.Build, c.Ids, side)
+	if d, ok := buildCache[key]; ok {
+		return d
+	}
+	if len(buildCache) > 4096 {
+		clear(buildCache)
+	}
+	d := build(c, ids, s)
+	buildCache[key] = d
+	return d
+}
+
 // ---- observer around Remote.Ranges -----------------------------------------------------
 
 var errRounds = errors.New("round bound exceeded")
@@ -116,6 +137,7 @@ type recorder struct {
 	equal     int
 	elements  int
 	subdivide int
+	ambiguous int // both sides answered an empty hash although one of them has elements there
 }
 
 func (r *recorder) Ranges(ctx context.Context, ranges []ldiff.Range, resBuf []ldiff.RangeResult) ([]ldiff.RangeResult, error) {
@@ -128,10 +150,16 @@ func (r *recorder) Ranges(ctx context.Context, ranges []ldiff.Range, resBuf []ld
 	if err != nil || len(res) != len(ranges) {
 		return res, err
 	}
+	if r.local == nil { // rounds only
+		return res, nil
+	}
 	mine, _ := r.local.Ranges(ctx, ranges, nil)
 	for i, rg := range ranges {
 		if r.rounds > 1 && !rg.Elements {
 			r.subdivide++ // a hash-only request below the top range is a child of a subdivided range
+		}
+		if len(mine[i].Hash) == 0 && len(res[i].Hash) == 0 && mine[i].Count+res[i].Count > 0 {
+			r.ambiguous++
 		}
 		switch {
 		case bytes.Equal(mine[i].Hash, res[i].Hash):
@@ -143,7 +171,45 @@ func (r *recorder) Ranges(ctx context.Context, ranges []ldiff.Range, resBuf []ld
 	return res, nil
 }
 
+// ---- known findings (only consulted if listed in known_findings.json with status "known") ----
+
+const (
+	// compareResults takes two empty hashes for "equal ranges" although an empty hash is
+	// also what a side answers for a range it holds no division for.
+	sigEmptyHash = "empty-hash-taken-as-equal"
+	// getBottomRange computes bucket == divideFactor for a position in the alignment
+	// remainder of a range whose size is not a multiple of the divide factor: nil range.
+	sigRemainder = "position-in-alignment-remainder"
+	// C08: indexes built through updates/removals are subdivided differently (count drift).
+	sigHistory = "history-built-index"
+)
+
+func excludedByConstruction(c Case, ids []string) string {
+	if c.Build != 0 && vstat.KnownSignature(prop, sigHistory) {
+		return sigHistory
+	}
+	if vstat.KnownSignature(prop, sigRemainder) || vstat.KnownSignature("C08", sigRemainder) {
+		for _, id := range ids {
+			if setmodel.InRemainder(setmodel.HashOf(id), c.DF) {
+				return sigRemainder
+			}
+		}
+	}
+	return ""
+}
+
 // ---- the property ------------------------------------------------------------------------
+
+var depthCache = map[int]int{}
+
+func maxDepth(df int) int {
+	d, ok := depthCache[df]
+	if !ok {
+		d = setmodel.MaxDepth(df)
+		depthCache[df] = d
+	}
+	return d
+}
 
 func sortedCopy(x []string) []string {
 	y := append([]string{}, x...)
@@ -177,45 +243,71 @@ func run(c Case) (vstat.Outcome, error) {
 		return out, nil // outside the documented parameter domain
 	}
 	ids, ma, mb := materialise(c)
-	local := build(c, ids, ma)
-	remote := build(c, ids, mb)
+	hs := make([]uint64, len(ids))
+	for i, id := range ids {
+		hs[i] = setmodel.HashOf(id)
+	}
+	sort.Slice(hs, func(i, j int) bool { return hs[i] < hs[j] })
+	if setmodel.TooClose(hs) {
+		return out, nil // outside the domain (near-collisions of the position hash), see check.json
+	}
+	if sig := excludedByConstruction(c, ids); sig != "" {
+		out.Excluded, out.Sig = sig, vstat.HashJSON(c)
+		return out, nil
+	}
+	local := cachedBuild(c, ids, c.A, ma)
+	remote := cachedBuild(c, ids, c.B, mb)
 	ctx := context.Background()
 
 	wNew, wChanged, wRemoved := setmodel.Diff(ma, mb)
 	cNew, cOurs, cTheirs, cRemoved := setmodel.CompareDiff(ma, mb)
 	differ := len(wNew)+len(wChanged)+len(wRemoved) > 0
-	maxRounds := setmodel.MaxDepth(c.DF) + 2
+	maxRounds := maxDepth(c.DF) + 2
 
 	var br [3]bool
+	oneDiff := func(tr, variant int) (*recorder, error) {
+		rec := &recorder{inner: setmodel.RemoteFor(tr, remote), local: local, maxRounds: maxRounds}
+		if tr != 0 && !vstat.KnownSignature(prop, sigEmptyHash) {
+			rec.local = nil // the branches are reconstructed on the in-process runs; the wire runs ask the same ranges
+		}
+		where := fmt.Sprintf("%s %s (df=%d th=%d build=%d |local|=%d |remote|=%d)", setmodel.Transports[tr],
+			[]string{"Diff", "CompareDiff"}[variant], c.DF, c.TH, c.Build, len(ma), len(mb))
+		if variant == 0 {
+			gNew, gChanged, gRemoved, err := local.Diff(ctx, rec)
+			if errors.Is(err, errRounds) {
+				return rec, fmt.Errorf("%s: no termination within %d rounds", where, maxRounds)
+			}
+			if err != nil {
+				return rec, fmt.Errorf("%s: error %v", where, err)
+			}
+			if !same(gNew, wNew) || !same(gChanged, wChanged) || !same(gRemoved, wRemoved) {
+				return rec, fmt.Errorf("%s:\n new     got %s want %s\n changed got %s want %s\n removed got %s want %s", where,
+					q(sortedCopy(gNew)), q(wNew), q(sortedCopy(gChanged)), q(wChanged), q(sortedCopy(gRemoved)), q(wRemoved))
+			}
+			return rec, nil
+		}
+		gNew, gOurs, gTheirs, gRemoved, err := local.(ldiff.CompareDiff).CompareDiff(ctx, rec)
+		if errors.Is(err, errRounds) {
+			return rec, fmt.Errorf("%s: no termination within %d rounds", where, maxRounds)
+		}
+		if err != nil {
+			return rec, fmt.Errorf("%s: error %v", where, err)
+		}
+		if !same(gNew, cNew) || !same(gOurs, cOurs) || !same(gTheirs, cTheirs) || !same(gRemoved, cRemoved) {
+			return rec, fmt.Errorf("%s:\n new     got %s want %s\n ours    got %s want %s\n theirs  got %s want %s\n removed got %s want %s", where,
+				q(sortedCopy(gNew)), q(cNew), q(sortedCopy(gOurs)), q(cOurs), q(sortedCopy(gTheirs)), q(cTheirs), q(sortedCopy(gRemoved)), q(cRemoved))
+		}
+		return rec, nil
+	}
 	for tr := range setmodel.Transports {
 		for variant := 0; variant < 2; variant++ {
-			rec := &recorder{inner: setmodel.RemoteFor(tr, remote), local: local, maxRounds: maxRounds}
-			where := fmt.Sprintf("%s %s (df=%d th=%d build=%d |local|=%d |remote|=%d)", setmodel.Transports[tr],
-				[]string{"Diff", "CompareDiff"}[variant], c.DF, c.TH, c.Build, len(ma), len(mb))
-			if variant == 0 {
-				gNew, gChanged, gRemoved, err := local.Diff(ctx, rec)
-				if errors.Is(err, errRounds) {
-					return out, fmt.Errorf("%s: no termination within %d rounds", where, maxRounds)
+			rec, err := oneDiff(tr, variant)
+			if err != nil {
+				if rec.ambiguous > 0 && vstat.KnownSignature(prop, sigEmptyHash) {
+					out.Excluded, out.Sig = sigEmptyHash, vstat.HashJSON(c)
+					return out, nil
 				}
-				if err != nil {
-					return out, fmt.Errorf("%s: error %v", where, err)
-				}
-				if !same(gNew, wNew) || !same(gChanged, wChanged) || !same(gRemoved, wRemoved) {
-					return out, fmt.Errorf("%s:\n new     got %s want %s\n changed got %s want %s\n removed got %s want %s", where,
-						q(sortedCopy(gNew)), q(wNew), q(sortedCopy(gChanged)), q(wChanged), q(sortedCopy(gRemoved)), q(wRemoved))
-				}
-			} else {
-				gNew, gOurs, gTheirs, gRemoved, err := local.(ldiff.CompareDiff).CompareDiff(ctx, rec)
-				if errors.Is(err, errRounds) {
-					return out, fmt.Errorf("%s: no termination within %d rounds", where, maxRounds)
-				}
-				if err != nil {
-					return out, fmt.Errorf("%s: error %v", where, err)
-				}
-				if !same(gNew, cNew) || !same(gOurs, cOurs) || !same(gTheirs, cTheirs) || !same(gRemoved, cRemoved) {
-					return out, fmt.Errorf("%s:\n new     got %s want %s\n ours    got %s want %s\n theirs  got %s want %s\n removed got %s want %s", where,
-						q(sortedCopy(gNew)), q(cNew), q(sortedCopy(gOurs)), q(cOurs), q(sortedCopy(gTheirs)), q(cTheirs), q(sortedCopy(gRemoved)), q(cRemoved))
-				}
+				return out, err
 			}
 			br[0] = br[0] || rec.equal > 0
 			br[1] = br[1] || rec.elements > 0
@@ -339,8 +431,9 @@ func shardOf() (shard, shards int) {
 }
 
 // enumerate: every pair of indexes over a universe of 4 ids (absent / head a / head b on
-// each side: 81 x 81 pairs) x divide factor x threshold x universe x build mode {0,2}.
-// Ordered so that small sets come first. Split over the shards of the run.
+// each side: 81 x 81 pairs) x divide factor x threshold x universe x build mode {0,2}
+// (history builds on the skewed and the deep universe with thresholds 1..3).
+// Within one parameter combination small sets come first. Split over the shards of the run.
 func enumerate(yield func(Case) bool) {
 	shard, shards := shardOf()
 	var states [][]int
@@ -359,12 +452,15 @@ func enumerate(yield func(Case) bool) {
 	}
 	sort.SliceStable(states, func(i, j int) bool { return weight(states[i]) < weight(states[j]) })
 	k := 0
-	for _, a := range states {
-		for _, b := range states {
-			for _, u := range universes() {
-				for _, df := range dfs {
-					for _, th := range ths {
-						for _, bm := range []int{0, 2} {
+	for ui, u := range universes() {
+		for _, df := range dfs {
+			for _, th := range ths {
+				for _, bm := range []int{0, 2} {
+					if bm == 2 && (ui == 1 || th == 8) {
+						continue // history builds: on the clustered universes and splitting thresholds
+					}
+					for _, a := range states {
+						for _, b := range states {
 							k++
 							if k%shards != shard {
 								continue
@@ -443,6 +539,7 @@ func genCase(rt *rapid.T) Case {
 			}
 		}
 	}
+	c.Ids = setmodel.SpacedOut(c.Ids)
 	c.A = make([]int, len(c.Ids))
 	c.B = make([]int, len(c.Ids))
 	mode := rapid.IntRange(0, 3).Draw(rt, "mode")
@@ -471,4 +568,30 @@ func TestRandom(t *testing.T)     { vstat.Check(t, prop, genCase, run) }
 func TestReplay(t *testing.T) {
 	t.Run("TestExhaustive", func(t *testing.T) { vstat.Replay(t, prop, "TestExhaustive", run) })
 	t.Run("TestRandom", func(t *testing.T) { vstat.Replay(t, prop, "TestRandom", run) })
+}
+
+// ---- regressions: minimised failures found by this package on the pinned tree ----------------
+
+var skewed4 = []setmodel.IDSpec{setmodel.Rank(200000), setmodel.Rank(200001), setmodel.Rank(200002), setmodel.Rank(200003)}
+
+// Local {o60oj,o12vs}, remote {o533x,o1obu}, one Set call each, df=3 th=1: the remote is
+// subdivided one level deeper than the local side; for the child range that holds the
+// local o12vs and no remote element both answer an empty hash (remote: empty range;
+// local: no such range, elements sent along) and compareResults returns "equal":
+// o12vs is never reported as removed.
+func TestRegEmptyHashTakenAsEqual(t *testing.T) {
+	vstat.One(t, prop, Case{DF: 3, TH: 1, Ids: skewed4, A: []int{1, 1, 0, 0}, B: []int{0, 0, 1, 1}}, run)
+}
+
+// An id at the last position of the ring with divide factor 3 (2^64 = 3*k+1): Set panics
+// with a nil range in getBottomRange (bucket == divideFactor).
+func TestRegPositionInAlignmentRemainder(t *testing.T) {
+	vstat.One(t, prop, Case{DF: 3, TH: 1, Ids: []setmodel.IDSpec{setmodel.Exact(^uint64(0), 0)}, A: []int{1}, B: []int{0}}, run)
+	vstat.One(t, prop, Case{DF: 7, TH: 2, Ids: []setmodel.IDSpec{setmodel.Exact(^uint64(0)-1, 0), setmodel.Rank(5)}, A: []int{1, 1}, B: []int{2, 0}, Build: 2}, run)
+}
+
+// Indexes that went through updates and removals (C08's count drift / one-level merge)
+// make the diff miss ids: local {o60oj}, remote {o12vs,o533x}, df=2 th=2.
+func TestRegHistoryBuiltIndexes(t *testing.T) {
+	vstat.One(t, prop, Case{DF: 2, TH: 2, Ids: skewed4, A: []int{1, 0, 0, 0}, B: []int{0, 1, 1, 0}, Build: 2}, run)
 }
